@@ -97,7 +97,9 @@ def _run(case, source, tmpdir):
             ds.seek(0)
     msg = msggen.make(case['cls'], data_set=ds, **kw)
     with stubs.patched_dul():
-        assoc = asceprovider.Association(stubs.FakeAE(), None, case['maxlen'])
+        # the association was created with the local default and negotiated down/up to maxlen afterwards
+        assoc = asceprovider.Association(stubs.FakeAE(), None, 65536 if case['maxlen'] != 65536 else 16384)
+        assoc.max_pdu_length = case['maxlen']
         assoc.send(msg, case['pc'])
         pdus = assoc.dul.sent[-1]
     return msg, raw, pdus
